@@ -92,7 +92,7 @@ def scalars(bad_ok=True):
         ),
     ]
     if bad_ok:
-        good.append(st.builds(lambda t: {"k": "bad", "t": t}, st.sampled_from(BAD)))
+        good.append(st.builds(lambda t: {"k": "bad", "t": t}, st.sampled_from(BAD + ["dict", "dict", "dict", "set", "bytes", "generator", "object"])))
     return gen.opaque(st.one_of(*good))
 
 
@@ -408,6 +408,29 @@ def body(case, note):
         _all_nodes(real, name)
         if tag is not None:
             check(tag.children is real, "Tag.children was replaced by a different list object")
+    # at the end of every history: calls that mix supported arguments with one unsupported object, in every position
+    for badobj in ({"class": "x"}, {1}, b"b", object()):
+        for form in ("append-first", "append-last", "extend", "insert"):
+            before = list(real)
+            attrs_before = dict(tag.attrs) if tag is not None else None
+            target = tag if tag is not None else real
+            try:
+                if form == "append-first":
+                    target.append(badobj, "ok")
+                elif form == "append-last":
+                    target.append("ok", badobj)
+                elif form == "extend":
+                    target.extend(["ok", [badobj]])
+                else:
+                    target.insert(0, ["ok", badobj])
+                raised = False
+            except TypeError:
+                raised = True
+            check(raised, f"{form} with a supported and an unsupported ({type(badobj).__name__}) argument did not raise TypeError")
+            now = list(real)
+            check(len(now) == len(before) and all(a is b for a, b in zip(now, before)), f"{form} with an unsupported ({type(badobj).__name__}) argument changed the list")
+            if tag is not None:
+                check(dict(tag.attrs) == attrs_before, f"{form} with an unsupported ({type(badobj).__name__}) argument changed the tag's attributes")
     import json as _json
 
     blob = _json.dumps(case, default=str)
